@@ -31,14 +31,14 @@ var c10Tree = map[string]string{
 	// ---- repository "repo"
 	"repo/.git/HEAD":                         "ref: refs/heads/main\n",
 	"repo/.github/actionlint.yaml":           "self-hosted-runner:\n  labels:\n    - foo-runner\nconfig-variables:\n  - ZZZ_VAR\n  - MMM_VAR\n  - AAA_VAR\n",
-	"repo/.github/actions/ok/action.yml":     "name: ok\ndescription: ok action\ninputs:\n  name:\n    required: true\n  opt:\n    default: x\noutputs:\n  out:\n    description: o\nruns:\n  using: composite\n  steps:\n    - run: echo\n      shell: bash\n",
+	"repo/.github/actions/ok/action.yml":     "name: ok\ndescription: ok action\ninputs:\n  Name:\n    required: true\n  opt:\n    default: x\noutputs:\n  Out:\n    description: o\nruns:\n  using: composite\n  steps:\n    - run: echo\n      shell: bash\n",
 	"repo/.github/actions/nodesc/action.yml": "name: nodesc\ninputs:\n  name:\n    required: false\nruns:\n  using: composite\n  steps:\n    - run: echo\n      shell: bash\n",
 	"repo/.github/actions/broken/action.yml": "name: [broken\n",
 	// S1: two files sharing a well-formed local action
-	"repo/.github/workflows/s1a.yml": "on: push\njobs:\n  a:\n" + c10Job + "      - uses: ./.github/actions/ok\n        with:\n          nme: x\n      - uses: ./.github/actions/ok\n        id: s\n        with:\n          name: x\n      - run: echo ${{ steps.s.outputs.nope }}\n",
+	"repo/.github/workflows/s1a.yml": "on: push\njobs:\n  a:\n" + c10Job + "      - uses: ./.github/actions/ok\n        with:\n          nme: x\n      - uses: ./.github/actions/ok\n        id: s\n        with:\n          name: x\n      - run: echo ${{ steps.s.outputs.nope }} ${{ steps.s.outputs.out }}\n",
 	"repo/.github/workflows/s1b.yml": "on: push\njobs:\n  b:\n" + c10Job + "      - uses: ./.github/actions/ok\n        with:\n          name: y\n          extra: z\n",
 	// S2: caller + callee reusable workflow
-	"repo/.github/workflows/s2callee.yml":  "on:\n  workflow_call:\n    inputs:\n      num:\n        type: number\n        required: true\n      str:\n        type: string\n        default: d\n        required: true\n      flag:\n        type: boolean\n    secrets:\n      tok:\n        required: true\n    outputs:\n      res:\n        value: x\njobs:\n  j:\n" + c10Job + "      - run: echo ${{ inputs.num }} ${{ inputs.nope }}\n",
+	"repo/.github/workflows/s2callee.yml":  "on:\n  workflow_call:\n    inputs:\n      Num:\n        type: number\n        required: true\n      str:\n        type: string\n        default: d\n        required: true\n      FLAG:\n        type: boolean\n    secrets:\n      Tok:\n        required: true\n    outputs:\n      Res:\n        value: x\njobs:\n  j:\n" + c10Job + "      - run: echo ${{ inputs.num }} ${{ inputs.nope }}\n",
 	"repo/.github/workflows/s2caller.yml":  "on: push\njobs:\n  c:\n    uses: ./.github/workflows/s2callee.yml\n    with:\n      num: abc\n      unknown: 1\n    secrets:\n      other: x\n  d:\n    needs: c\n" + c10Job + "      - run: echo ${{ needs.c.outputs.res }} ${{ needs.c.outputs.nope }}\n",
 	"repo/.github/workflows/s2caller2.yml": "on: push\njobs:\n  c:\n    uses: ./.github/workflows/s2callee.yml\n    with:\n      num: 1\n      flag: xyz\n    secrets: inherit\n",
 	// S3: runner labels / config variables depend on the repository's configuration
@@ -50,6 +50,10 @@ var c10Tree = map[string]string{
 	// missing reusable workflow
 	"repo/.github/workflows/s5a.yml": "on: push\njobs:\n  a:\n" + c10Job + "      - uses: ./.github/actions/broken\n      - uses: ./.github/actions/nodesc\n  w:\n    uses: ./.github/workflows/missing.yml\n",
 	"repo/.github/workflows/s5b.yml": "on: push\njobs:\n  b:\n" + c10Job + "      - uses: ./.github/actions/nodesc\n      - uses: ./.github/actions/broken\n  w:\n    uses: ./.github/workflows/missing.yml\n",
+	// S7: files that stop early (YAML syntax error, empty document, not a mapping) next to ordinary ones
+	"repo/.github/workflows/s7bad.yml":   "on: push\njobs:\n  a: [unclosed\n",
+	"repo/.github/workflows/s7empty.yml": "# nothing here\n",
+	"repo/.github/workflows/s7seq.yml":   "- on: push\n",
 	// ---- sibling repository whose name shares a prefix
 	"repo2/.git/HEAD":                 "ref: refs/heads/main\n",
 	"repo2/.github/actionlint.yaml":   "self-hosted-runner:\n  labels:\n    - bar-runner\nconfig-variables:\n  - ONLY_IN_REPO2\n",
@@ -75,6 +79,7 @@ var c10Scenarios = []c10Scenario{
 	{Name: "S4-shared-slices", Files: []string{"repo/.github/workflows/s4a.yml", "repo/.github/workflows/s4b.yml"}, MinFiles: 1},
 	{Name: "S5-broken-callees", Files: []string{"repo/.github/workflows/s5a.yml", "repo/.github/workflows/s5b.yml"}, MinFiles: 2,
 		Once: []string{"could not parse action metadata", "description is required in metadata of \"nodesc\"", "could not read reusable workflow file"}},
+	{Name: "S7-early-stop", Files: []string{"repo/.github/workflows/s7bad.yml", "repo/.github/workflows/s1a.yml", "repo/.github/workflows/s7empty.yml", "repo/.github/workflows/s7seq.yml"}, MinFiles: 2},
 	{Name: "S6-format", Files: []string{"repo/.github/workflows/s4a.yml", "repo/.github/workflows/s1b.yml"}, MinFiles: 2, Format: "{{range $ := .}}{{$.Filepath}}:{{$.Line}}:{{$.Column}}:{{$.Kind}}\n{{end}}"},
 }
 
@@ -157,7 +162,7 @@ func TestVerifC10(t *testing.T) {
 	}
 	r.Bounds["preemptions"] = maxPreempt
 	r.Bounds["semaphore_sizes"] = []int{1, 2}
-	r.Extra["rule"] = "6 scenarios (shared local action, caller+callee, sibling/nested repositories, shared-slice messages, broken callees, -format) x every subset and argument order of their files x semaphore size {1,2} x all interleavings of the real LintFiles up to the preemption bound; oracle: per-file diagnostics = LintFile alone, once-per-run defects exactly once, fingerprints of shared tables and configs unchanged at every scheduling point; class = (scenario, file order, per-file diagnostic counts); non-trivial = more than one file with diagnostics"
+	r.Extra["rule"] = "7 scenarios (shared local action, caller+callee, sibling/nested repositories, shared-slice messages, broken callees, files that stop early, -format) x every subset and argument order of their files x semaphore size {1,2} x all interleavings of the real LintFiles up to the preemption bound; oracle: per-file diagnostics = LintFile alone, once-per-run defects exactly once, fingerprints of shared tables and configs unchanged at every scheduling point; class = (scenario, file order, per-file diagnostic counts); non-trivial = more than one file with diagnostics"
 	r.Extra["assumptions"] = []string{"data races are outside a cooperative scheduler's reach (supported by a separate free-running -race pass, not decided here)", "GOMAXPROCS is subsumed by interleavings under data-race freedom"}
 	root := vTempDir(t, "c10-")
 	vWriteFiles(t, root, c10Tree)
